@@ -16,7 +16,7 @@ PROPS = {
                 "UDP/TCP/ICMP/other, length fields below/at/above the truth, truncation sweeps, trailing bytes, "
                 "flips, noise, all 65536 ether types) decoded by the strict slicers and by the reference decoder; "
                 "a case is non-trivial if the reference decoder got past the first header or found the fault "
-                "behind it; distinct = distinct (entry point, layer sequence, outcome class, faulty layer) signatures; engine big: the same judgement on packets whose true sizes lie around 2^16 (65535 -/+ header sizes, 65536, 70 000, 131 072: where 16 bit length arithmetic would wrap); engines bytesweep / wordsweep: one header byte of a clean packet through all 256 values, one aligned 16 bit header word through all 65 536 values; the packet-level accessor methods (ether_payload(), ip_payload(), vlan_ids(), is_ip_payload_fragmented()) are judged against the reference layers as well",
+                "behind it; distinct = distinct (entry point, layer sequence, outcome class, faulty layer) signatures; engine big: the same judgement on packets whose true sizes lie around 2^16 (65535 -/+ header sizes, 65536, 70 000, 131 072: where 16 bit length arithmetic would wrap); engines bytesweep / wordsweep: one header byte of a clean packet through all 256 values, one aligned 16 bit header word through all 65 536 values; the packet-level accessor methods (ether_payload(), ip_payload(), vlan_ids(), is_ip_payload_fragmented()) are judged against the reference layers as well; UdpSlice::payload_len_source() judged against the reference (fact ~udp_src), true sizes that are whole multiples of 2^16 with zero length fields",
         "assumptions": COMMON_ASSUME + [
             "reference decoder R (harness/src/refmodel/pkt.rs) is right about the wire formats; it is itself "
             "checked against the generator's recipe on every clean packet",
@@ -40,7 +40,7 @@ PROPS = {
                 "entry points of the 4 decoder families, the 13 IP-level entry points and the io::Read doors (IpHeaders::read, "
                 "Ipv6Extensions/Ipv4Extensions::read_limited over a LimitedReader with a random base offset); every Err / lax stop error is "
                 "compared field by field with the set of truthful reports of the reference decoder; distinct = distinct "
-                "(entry point, error class, stop layer, faulty layer kind, fault behind offset 0) signatures; engine single: 36 single-layer decoders (header structs and slice types) judged the same way; engine convert: errors of 13 slice and 8 reader entry points keep their message, innermost source and typed accessor when converted into FromSliceError / ReadError; engine big: the same judgement on packets whose true sizes lie around 2^16 (65535 -/+ header sizes, 65536, 70 000, 131 072: where 16 bit length arithmetic would wrap); engines bytesweep / wordsweep: one header byte of a clean packet through all 256 values, one aligned 16 bit header word through all 65 536 values",
+                "(entry point, error class, stop layer, faulty layer kind, fault behind offset 0) signatures; engine single: 36 single-layer decoders (header structs and slice types) judged the same way; engine convert: errors of 13 slice and 8 reader entry points keep their message, innermost source and typed accessor when converted into FromSliceError / ReadError; engine big: the same judgement on packets whose true sizes lie around 2^16 (65535 -/+ header sizes, 65536, 70 000, 131 072: where 16 bit length arithmetic would wrap); engines bytesweep / wordsweep: one header byte of a clean packet through all 256 values, one aligned 16 bit header word through all 65 536 values; Ipv4Header(Slice)::payload_len() judged like a decoder; the message of every 4th length error (any door) must state both byte counts, the offset, the direction and the length source by its header field",
         "assumptions": COMMON_ASSUME + [
             "reference decoder R and its truthful-report sets (DESIGN appendix A)",
             "reporting LenSource::Slice is always accepted (the statement only constrains other sources)",
@@ -56,6 +56,7 @@ PROPS = {
             "big_cases": 5000,
             "api.c07.reader_error_accessors": 10000,
             "bytesweep_cases": 100000, "wordsweeps": 16,
+            "accessor_len.ok": 10000, "accessor_len.truthful_error": 500, "len_error_messages_checked": 300000,
         },
     },
     "C05": {
@@ -65,7 +66,7 @@ PROPS = {
                 "IpHeaders::*_lax x3, LaxMacsecSlice, UdpSlice::from_slice_lax, Ipv6Extensions(Slice)::from_slice_lax) compared with "
                 "(a) the strict sibling on the same bytes (incl. stop error = strict error where both stop at one single-description fault) "
                 "and (b) the reference decoder in lax mode; non-trivial = decoded past "
-                "the first header or recorded a stop error; distinct = distinct (entry point, layer sequence, stop error class, stop layer); engine big: the same judgement on packets whose true sizes lie around 2^16 (65535 -/+ header sizes, 65536, 70 000, 131 072: where 16 bit length arithmetic would wrap); engines bytesweep / wordsweep: one header byte of a clean packet through all 256 values, one aligned 16 bit header word through all 65 536 values; where strict parsing succeeds the packet-level accessor methods of the lax result must answer like those of the strict one",
+                "the first header or recorded a stop error; distinct = distinct (entry point, layer sequence, stop error class, stop layer); engine big: the same judgement on packets whose true sizes lie around 2^16 (65535 -/+ header sizes, 65536, 70 000, 131 072: where 16 bit length arithmetic would wrap); engines bytesweep / wordsweep: one header byte of a clean packet through all 256 values, one aligned 16 bit header word through all 65 536 values; where strict parsing succeeds the packet-level accessor methods of the lax result must answer like those of the strict one; engine quoted: packets quoted inside the four ICMPv6 error messages (generated ones and complete 1000 - 3000 octet ones), the typed views' as_lax_ip_slice() against LaxIpSlice::from_slice(invoking_packet())",
         "assumptions": COMMON_ASSUME + [
             "reference decoder R in lax mode (DESIGN appendix B) incl. the documented relaxations (IPv4 total_len / IPv6 "
             "payload_len / MACsec short length / UDP length fall back to the slice)",
@@ -80,6 +81,7 @@ PROPS = {
             "big_cases": 5000,
             "bytesweep_cases": 100000, "wordsweeps": 16,
             "strict_ok_lax_accessors_same": 10000,
+            "quoted.decoded_same_as_lax_ip_slice": 10000, "quoted.long_packets": 5000, "quoted.incomplete_flagged": 1000, "quoted.PacketTooBig": 500, "quoted.TimeExceeded": 500, "quoted.DestinationUnreachable": 500, "quoted.ParameterProblem": 500,
         },
     },
     "C04": {
@@ -111,7 +113,7 @@ PROPS = {
                 "(b) from_ethernet vs from_ether_type on the bytes behind the Ethernet II header (offsets +14) and (c) from_ether_type"
                 "(IPv4/IPv6) vs from_ip in all 4 decoder families, (d) read() from a Cursor vs from_slice() for 24 reader entry points "
                 "of 17 header types incl. cursor position; errors compared after projecting sibling layer names; equality demanded only "
-                "for single-fault inputs; distinct = distinct (rule, entry point, outcome signature); engine api: the deprecated read_from_slice doors (6 header types) and Ethernet2Header::from_bytes equal from_slice, value and rest; engine big: the same judgement on packets whose true sizes lie around 2^16 (65535 -/+ header sizes, 65536, 70 000, 131 072: where 16 bit length arithmetic would wrap); the skip walkers over a slice (Ipv6Header::skip_header_extension_in_slice / skip_all_…) against a reference walk, and their io::Read doors against them; engine bytesweep: one header byte of a clean packet through all 256 values; one read case in three uses a source that delivers 1-4 octets per call and is interrupted now and then",
+                "for single-fault inputs; distinct = distinct (rule, entry point, outcome signature); engine api: the deprecated read_from_slice doors (6 header types) and Ethernet2Header::from_bytes equal from_slice, value and rest; engine big: the same judgement on packets whose true sizes lie around 2^16 (65535 -/+ header sizes, 65536, 70 000, 131 072: where 16 bit length arithmetic would wrap); the skip walkers over a slice (Ipv6Header::skip_header_extension_in_slice / skip_all_…) against a reference walk, and their io::Read doors against them; engine bytesweep: one header byte of a clean packet through all 256 values; one read case in three uses a source that delivers 1-4 octets per call and is interrupted now and then; reader doors also fed 1 - 3 octets per read call; content errors of the reader and the slice door converted into err::ReadError land in the same variant",
         "assumptions": COMMON_ASSUME + [
             "a too short slice corresponds to io::ErrorKind::UnexpectedEof of a reader",
             "rules that depend on the total slice length (ICMPv4 timestamp exact size, IP total length vs slice) are excluded when only the slice decoder can know them",
@@ -128,6 +130,7 @@ PROPS = {
             "api.c06.skip_in_slice_ok": 10000, "api.c06.skip_in_slice_rejects": 10000, "api.c06.skip_reader_same": 10000,
             "bytesweep_cases": 100000,
             "read_vs_slice.chunked_source": 100000,
+            "api.c06.converted_errors_same_variant": 20000, "read_vs_slice.chunked_source": 100000,
         },
     },
     "C01": {
@@ -139,7 +142,7 @@ PROPS = {
                 "unsafe-precondition checks + overflow checks (chk), guard pages on the plain release build (rel), Miri on a reduced "
                 "workload, in thorough also AddressSanitizer and valgrind memcheck with exact-size heap buffers; evaluations = calls "
                 "into etherparse judged (one per entry point and placement); distinct = distinct (entry point, layer sequence / "
-                "outcome class) signatures",
+                "outcome class) signatures; engine mixed: IpHeadersSlice::{Ipv4,Ipv6} and SlicedPacket / LaxSlicedPacket assembled by the caller from the parts of two independently decoded packets, full accessor closure",
         "assumptions": COMMON_ASSUME + [
             "guard pages detect reads past the end / before the start of the buffer, not stray reads that stay inside it: those are "
             "left to the slice-relative checks of the chk flavour, ASan/Miri and the position-independence comparison",
@@ -155,6 +158,7 @@ PROPS = {
             "corpus_cases": 20000, "placements_compared": 100000, "sub_slices_checked": 1000000, "accessor_calls": 1000000,
             "entry.SlicedPacket::*": 1000, "entry.LaxSlicedPacket::*": 1000, "entry.PacketHeaders::*": 1000,
             "entry.LaxPacketHeaders::*": 1000, "entry.*::read": 1000, "entry.*::from_slice": 1000,
+            "entry.IpHeadersSlice::Ipv4 assembled from two packets": 2000, "entry.IpHeadersSlice::Ipv6 assembled from two packets": 2000, "entry.SlicedPacket assembled from two packets": 2000,
         },
         "min_distinct": {"entry.*": 85},
     },
@@ -164,7 +168,7 @@ PROPS = {
                 "Debug/Display of every result and error, iterators driven to exhaustion + 3 further next() calls under a step budget "
                 "of items <= bytes+1), end-aligned placement; events: panic caught by the shell (overflow checks and debug assertions "
                 "on), step budget exceeded, abnormal worker exit (abort/signal) or a hang confirmed twice in isolation; distinct = "
-                "distinct (entry point, layer sequence / outcome class) signatures",
+                "distinct (entry point, layer sequence / outcome class) signatures; engine mixed: IpHeadersSlice::{Ipv4,Ipv6} and SlicedPacket / LaxSlicedPacket assembled by the caller from the parts of two independently decoded packets, full accessor closure; every iterator's size_hint() brackets the items still to come",
         "assumptions": COMMON_ASSUME + ["hangs are decided on a 30 s no-progress watchdog and must reproduce twice in isolation"],
         "runs": {
             "quick": [dict(CHK), {"flavour": "rel", "scale": 0.5}],
@@ -176,6 +180,7 @@ PROPS = {
             "entry.SlicedPacket::*": 1000, "entry.LaxSlicedPacket::*": 1000, "entry.PacketHeaders::*": 1000,
             "entry.LaxPacketHeaders::*": 1000, "entry.*::read": 1000, "entry.TcpOptionsIterator::from_slice": 500,
             "entry.NdpOptionsIterator::from_slice": 500,
+            "entry.IpHeadersSlice::Ipv4 assembled from two packets": 2000, "entry.IpHeadersSlice::Ipv6 assembled from two packets": 2000, "entry.SlicedPacket assembled from two packets": 2000,
         },
         "min_distinct": {"entry.*": 85},
     },
@@ -189,7 +194,7 @@ PROPS = {
                 "judged against a sequential model (None until the union of delivered ranges covers [0,end) with end known, then the "
                 "original payload and protocol exactly once; errors for the three documented inconsistency classes); the verif_counts "
                 "hook gives active-stream and pooled-buffer counts for conservation; plus IpDefragBuf driven directly; evaluations = "
-                "deliveries judged; distinct = distinct (engine, datagram count, history length class, IP version) signatures",
+                "deliveries judged; distinct = distinct (engine, datagram count, history length class, IP version) signatures; header bits a reassembler ignores (DSCP/ECN, TTL / hop limit, traffic class, don't-fragment) differ between the fragments of one datagram",
         "assumptions": COMMON_ASSUME + [
             "the sequential model in harness/src/monitors/c11.rs is the specification of reassembly",
             "uninitialised-memory exposure of recycled buffers is watched by Miri / memcheck on reduced histories",
@@ -208,6 +213,7 @@ PROPS = {
             "datagrams.with_empty_final_fragment": 1000, "fragments.empty_inner": 1000,
             "datagrams.above_32k": 500,
             "cuts.power_of_two_offset": 1000,
+            "deliveries.with_ignorable_bits_set": 100000,
         },
     },
     "C12": {
@@ -217,7 +223,7 @@ PROPS = {
                 "first header drawn from {0,43,44,51,60,17,59,255} = 3 831 624 configurations, plus random links, set_next_headers(n) "
                 "for all 251 non-extension n x all presence combinations, IPv4 auth chains and the IpHeaders/NetHeaders wrappers; "
                 "oracle = independent walk of the struct + independent parser of the written bytes; distinct = distinct (engine, "
-                "presence combination, walk outcome) signatures; every chain is also walked and written through the IpHeaders wrapper (must agree with the extension walk started at the base header's field); engine api: which protocol numbers are extension headers (IANA list), Ipv6RoutingExtensions::header_len",
+                "presence combination, walk outcome) signatures; every chain is also walked and written through the IpHeaders wrapper (must agree with the extension walk started at the base header's field); engine api: which protocol numbers are extension headers (IANA list), Ipv6RoutingExtensions::header_len; announced bounds: header_len() of generated chains (smallest / largest / random header sizes) inside [MIN_LEN, MAX_LEN] of Ipv6Extensions / Ipv6RoutingExtensions / Ipv4Extensions / IpHeaders, bounds attained, a MAX_LEN buffer takes every walkable chain",
         "assumptions": COMMON_ASSUME + ["the reference walk in harness/src/monitors/c12.rs states RFC 8200 order and the struct's documented layout"],
         "coverage_extra": {"exhaustive_subdomains": {"ipv6 presence x links over S": 3831624}},
         "runs": {"quick": [dict(CHK), {"flavour": "rel", "scale": 0.25}], "thorough": [dict(CHK), {"flavour": "rel", "scale": 0.5}]},
@@ -228,6 +234,7 @@ PROPS = {
             "wrappers.ipv4_walk_and_write_agree": 1000, "wrappers.ipv6_walk_and_write_agree": 100000, "api.ok": 100000,
             "decoded_same_through_all_doors": 5000,
             "set_next_headers_from_prelinked_ok": 1000,
+            "api.c12.announced_bounds_checked": 300, "api.c12.largest_chain": 5,
         },
     },
     "C13": {
@@ -237,7 +244,7 @@ PROPS = {
                 "option areas (EXHAUSTIVE: all byte strings of length 0..3 and every (kind, length octet, octets left) triple; grammar "
                 "generated, random, mutated encodings) through TcpOptionsIterator / try_from_slice / set_options_raw / header slices; oracle = "
                 "independent RFC 9293/2018/7323 encoder + parser (refmodel/tcpopts.rs); rest() before/after every item, error fields, "
-                "exhaustion, step budget; distinct = distinct (engine, item kind sequence, outcome) signatures; engine api: the trait doors of TcpOptions (TryFrom<&[u8]>, Deref, AsRef/AsMut, Eq/Ord/Hash over the live bytes only, as_mut_slice) and the deprecated TcpHeader accessors",
+                "exhaustion, step budget; distinct = distinct (engine, item kind sequence, outcome) signatures; engine api: the trait doors of TcpOptions (TryFrom<&[u8]>, Deref, AsRef/AsMut, Eq/Ord/Hash over the live bytes only, as_mut_slice) and the deprecated TcpHeader accessors; size_hint() in front of every next() brackets the items still to come",
         "assumptions": COMMON_ASSUME + [
             "a SACK element with gaps in its block array ([None, Some, None]) is compacted on the wire (the format cannot express the gap): the compacted element is demanded",
             "where several rules are broken at once every truthful error description is accepted",
@@ -255,6 +262,7 @@ PROPS = {
             "api.ok": 100000,
             "builder_options.accepted": 1000, "builder_options.replaced_earlier_options": 1000,
             "header_owned_paths.agree": 10000,
+            "size_hints_checked": 1000000,
         },
     },
     "C14": {
@@ -265,7 +273,7 @@ PROPS = {
                 "IpAuthHeader::new/set_raw_icv, Ipv6RawExtHeader::new_raw/set_payload, Ipv4Options, TcpHeader::set_options_raw, "
                 "ArpPacket::new/set_hw_addrs/set_protocol_addrs, PacketBuilder payloads for every transport x IP version); probes {0,1,limit-4..limit+4, alignment neighbours, 2^16+-2, 2^32+-2, "
                 "usize::MAX}; the true limit of each row is derived from the wire field width in the monitor; huge payloads are NORESERVE "
-                "zero mappings (accept side of the 2^32 limits in thorough only); distinct = distinct (API, below/at/above limit class); accepted IPv6 upper-layer lengths >= 2^16 must be encoded exactly: checksum through six TCP doors and ICMPv6 compared with the reference that uses the 32 bit length; engine tcp_elements: option element lists around the 40 octet limit incl. SACKs with holes through three doors",
+                "zero mappings (accept side of the 2^32 limits in thorough only); distinct = distinct (API, below/at/above limit class); accepted IPv6 upper-layer lengths >= 2^16 must be encoded exactly: checksum through six TCP doors and ICMPv6 compared with the reference that uses the 32 bit length; engine tcp_elements: option element lists around the 40 octet limit incl. SACKs with holes through three doors; option-area lengths also around the values that wrap onto an acceptable one when narrowed to 8 / 16 bit",
         "assumptions": COMMON_ASSUME + ["huge payloads are read-only zero mappings: their content is irrelevant for the limit rules"],
         "runs": {"quick": [dict(CHK, shards=8)], "thorough": [dict(CHK, shards=8)]},
         "mandatory": {"accepted.*": 10000, "rejected.*": 10000, "macsec.unknown_fallback": 100, "macsec.encoded_exactly": 100,
@@ -286,7 +294,7 @@ PROPS = {
                 "flags/fragment offset, IPv6 fragment offset, MACsec TCI/SL, all 256 IPv4 TOS / IGMPv3 octet-8 values, all 2^20 flow labels; "
                 "encode side: every value of each field against all-zeros/all-ones/random neighbours, diff against a baseline header must stay "
                 "inside the field's mask; oracle = independent mask table from IEEE 802.1Q/802.1AE, RFC 791/2474/3168/8200/3376; distinct = "
-                "distinct (type, accepted/rejected class) / (header, field) signatures; engine api: TryFrom / From / Display of all nine bounded types over their complete raw domain, MacsecShortLen::from_len, the named DSCP code points (IpDscpKnown) against the RFC values",
+                "distinct (type, accepted/rejected class) / (header, field) signatures; engine api: TryFrom / From / Display of all nine bounded types over their complete raw domain, MacsecShortLen::from_len, the named DSCP code points (IpDscpKnown) against the RFC values; MacsecHeader::set_payload_len over small lengths, powers of two and the largest usize values",
         "assumptions": COMMON_ASSUME + ["acceptance decisions of decoders (MACsec version bit, IHL, ...) are counted, not judged here (C03)"],
         "coverage_extra": {"exhaustive_subdomains": {"Ipv6FlowLabel raw u32": 4294967296, "VlanId raw u16": 65536, "IpFragOffset raw u16": 65536}},
         "runs": {"quick": [dict(CHK)], "thorough": [dict(CHK)]},
@@ -311,7 +319,7 @@ PROPS = {
                 "header, UDP/TCP over IPv4/IPv6 from structs and slices, ICMPv4, ICMPv6 (+ is_checksum_valid on valid / one-bit-off / random "
                 "messages), IGMP, TransportHeader::update_checksum_*, PacketBuilder output; computed-zero UDP cases are constructed; oracle = "
                 "independent RFC 1071 sum + pseudo header composers (refmodel/checksum.rs); distinct = distinct (routine, length class, "
-                "alignment, carry class) signatures",
+                "alignment, carry class) signatures; after add_{4,8,16}bytes(&mut self) the receiver holds its old sum or the returned one",
         "assumptions": COMMON_ASSUME + [
             "helper results are compared in memory order (the crate's documented convention: callers apply to_be())",
             "UDP over IPv6 jumbograms and TCP/ICMPv6 lengths above ~70000 bytes are not judged here (C14 probes the limits)",
@@ -328,6 +336,7 @@ PROPS = {
             "checked.Icmpv4Header::with_checksum": 700000, "checked.Icmpv6Header::with_checksum": 550000,
             "checked.IgmpHeader::with_checksum": 500000, "checked.TransportHeader::update_checksum_*": 500000,
             "checked.PacketBuilder*": 800000,
+            "helper.receiver_state_checks": 1000000,
         },
     },
     "C16": {
@@ -337,7 +346,7 @@ PROPS = {
                 "injected: a writer failing at byte k for all k in 0..=n+1 in two modes (partial chunk accepted / chunk rejected), an output "
                 "slice of every length 0..=n+1 ending at a PROT_NONE page with canaries in front, a reader failing at byte k for all k up "
                 "to the bytes the decoder needs, a LimitedReader limit for all 0..=n+2 over a counting reader; evaluations = injected "
-                "faults judged; distinct = distinct (kind, type, encoded length) signatures; engine skip: Ipv6Header::skip_header_extension / skip_all_header_extensions over seekable sources that end or fail at every position of the chain (fault surfaced iff a skipped header is not completely readable; cursor position on success)",
+                "faults judged; distinct = distinct (kind, type, encoded length) signatures; engine skip: Ipv6Header::skip_header_extension / skip_all_header_extensions over seekable sources that end or fail at every position of the chain (fault surfaced iff a skipped header is not completely readable; cursor position on success); sources / sinks that hand out / take 1 - 3 octets per call; a space error's numbers as restated by BuildSliceWriteError::from and both messages",
         "assumptions": COMMON_ASSUME + [
             "the complete encoding a partial write must be a prefix of is what the same value writes into a Vec (byte-level correctness of encodings is C08's job)",
         ],
@@ -350,6 +359,7 @@ PROPS = {
             "writers.multi_part_fault.IpHeaders": 10000, "writers.multi_part_fault.Ipv6Extensions": 10000,
             "writers.multi_part_fault.Ipv4Header": 10000, "writers.multi_part_fault.TcpHeader": 10000,
             "skip.all_fault_surfaced": 10000, "skip.step_fault_surfaced": 10000, "skip.all_ok": 10000,
+            "readers.chunked_source": 10000, "writers.short_write_sinks": 100000,
         },
         "min_distinct": {"writers.values.*": 20, "readers.values.*": 24},
     },
@@ -361,7 +371,7 @@ PROPS = {
                 "payload lengths at the IPv4/IPv6 length limits +-2; judged: size() vs bytes written, three writers identical, independent "
                 "reference decoder and SlicedPacket accept and agree, configured values recovered, derived lengths and all checksums "
                 "(independent RFC 1071 reference), unencodable configurations rejected; distinct = distinct (engine, link, vlan depth, net "
-                "kind, transport kind) signatures",
+                "kind, transport kind) signatures; the sink of the write door accepts at most 1 - 3 octets per call in three cases of four (short writes)",
         "assumptions": COMMON_ASSUME + [
             "reference decoder R (strict) and refmodel/checksum.rs, refmodel/tcpopts.rs",
             "ICMPv4 timestamp messages are only judged with the payload their fixed size admits",
@@ -373,6 +383,7 @@ PROPS = {
             "unencodable_rejected.Icmpv6InIpv4": 10000, "unencodable_rejected.PayloadLen": 500, "limits.at_or_below": 1000,
             "paths.configs": 100000,
             "tcp.options_replaced_by_second_call": 1000,
+            "writer_door.sink_takes_1_to_3_octets_per_call": 20000, "writer_door.sink_takes_all": 5000,
         },
     },
     "C17": {
@@ -381,7 +392,7 @@ PROPS = {
                 "length units) pairs x area lengths, all 256 IGMP types x lengths 0..40, all (hlen, plen) ARP pairs; plus random / grammar "
                 "generated ICMP bodies, NDP option lists, IGMPv3 queries/reports with group records, Ethernet/IPv4-shaped ARP packets; oracle = "
                 "independent RFC 792/4443/4861/1112/2236/3376/9776/826 decoder (refmodel/ctrl.rs): kind, fields, fixed/variable split, option "
-                "tiling, rejection rule, unknown fallback; distinct = distinct (family, kind, outcome) signatures; engine api: ICMPv4 / ICMPv6 code helpers over all 256 codes against the assigned ranges and against the decoder, TimestampMessage::from_bytes, Icmpv6Type::payload_from_slice and the owned NDP payload structs (RFC 4861 fixed-part lengths, write = to_bytes = the decoded bytes), igmp::GroupAddress",
+                "tiling, rejection rule, unknown fallback; distinct = distinct (family, kind, outcome) signatures; engine api: ICMPv4 / ICMPv6 code helpers over all 256 codes against the assigned ranges and against the decoder, TimestampMessage::from_bytes, Icmpv6Type::payload_from_slice and the owned NDP payload structs (RFC 4861 fixed-part lengths, write = to_bytes = the decoded bytes), igmp::GroupAddress; ArpPacket == / Hash against packets decoded from its own encoding with one octet changed per field",
         "assumptions": COMMON_ASSUME + [
             "assigned but untyped ICMP types/codes are expected as Unknown/Raw, typed ones as the crate's documentation tables claim",
             "LenError layer / len_source are C07's job; only required_len and len are compared here",
@@ -396,6 +407,7 @@ PROPS = {
             "igmp.group_records": 1000000, "arp.eth_ipv4.ok": 600000, "icmp4.rejected.icmp4.timestamp_short": 40000,
             "ndp.reject.ZeroLength": 180000, "ndp.reject.WrongFixedSize": 180000, "igmp.rejected.igmp.query_9_to_11": 40000,
             "api.c17.owned_payloads": 1000, "api.ok": 100000,
+            "arp.eq_distinguishes_every_field": 100000,
         },
     },
     "C08": {
@@ -407,7 +419,7 @@ PROPS = {
                 "chains compared at value level), decode(encode(v)) = v with empty remainder, read(encode(v)) = v; value direction: directly "
                 "constructed values of 16 types over extremes, all option / ICV / address lengths, every typed ICMPv4/ICMPv6 variant, "
                 "consistent IpHeaders sets; grow-then-shrink setter sequences compared with freshly constructed values; distinct = distinct "
-                "(direction, type, encoded length) signatures; a third door for the byte direction: 21 slice types converted with to_header(); engine api: ArpEthIpv4Packet <-> ArpPacket views against the RFC 826 layout, Ipv4Options array conversions, NdpOptionHeader",
+                "(direction, type, encoded length) signatures; a third door for the byte direction: 21 slice types converted with to_header(); engine api: ArpEthIpv4Packet <-> ArpPacket views against the RFC 826 layout, Ipv4Options array conversions, NdpOptionHeader; setters followed by a Hash / Ord / Eq consistency check; IGMP byte direction",
         "assumptions": COMMON_ASSUME + [
             "Ipv4Header::write / IpHeaders::write deliberately recompute the header checksum (documented): compared through write_raw / with inputs that carry a correct checksum",
             "reference encoders are replaced by the reserved-bit mask comparison against accepted input bytes; IGMP, group records and PrefixInformation round trips are covered by C17/C09",
@@ -420,6 +432,7 @@ PROPS = {
             "api.c08.arp_views": 10000, "bytes.door.TcpSlice::to_header": 1000, "bytes.door.MacsecHeaderSlice::to_header": 1000,
             "values.sll_protocol_variant.LinuxNonstandardEtherType": 1000, "values.sll_protocol_variant.NetlinkProtocolType": 1000,
             "bytesweep_cases": 100000,
+            "api.c08.igmp_round_trips": 10000,
         },
         "min_distinct": {"bytes.type.*": 24, "values.type.*": 16},
     },
